@@ -511,20 +511,34 @@ def check_satisfier_as_provider(chk, F, rid="R17.11"):
                "lookup_hash160", "check_older", "check_after"):
         m.hooks["Satisfier::" + nm] = look(nm)
         m.hooks["miniscript::satisfy::Satisfier::" + nm] = look(nm)
-    for nm in ("bitcoin::ecdsa::Signature::to_vec", "bitcoin::taproot::Signature::to_vec"):
-        m.hooks[nm] = lambda m_, a, c: PyVec([0] * deref(a[0])[1])
+    m.hooks["bitcoin::ecdsa::Signature::to_vec"] = lambda m_, a, c: PyVec([0] * deref(a[0])[1])
+    # a taproot signature: 64 bytes, plus the sighash byte unless it is the default one
+    TSIG = "bitcoin::taproot::Signature"
+
+    def tsig(n):
+        return Adt(TSIG, "Signature", {"signature": Term("schnorr-sig"),
+                                       "sighash_type": Adt("bitcoin::TapSighashType", "Default" if n == 64 else "All", {})})
+    m.hooks["bitcoin::taproot::Signature::to_vec"] = \
+        lambda m_, a, c: PyVec([0] * (64 if deref(a[0]).fields["sighash_type"].variant == "Default" else 65))
+    m.hooks["bitcoin::taproot::Signature::serialize"] = \
+        lambda m_, a, c: PyVec([0] * (64 if deref(a[0]).fields["sighash_type"].variant == "Default" else 65))
+    m.hooks["bitcoin::secp256k1::schnorr::Signature::serialize"] = lambda m_, a, c: PyVec([0] * 64)
+    m.hooks["bitcoin::secp256k1::schnorr::Signature::as_ref"] = lambda m_, a, c: PyVec([0] * 64)
     SAT = Term("sat")
     K, LEAF, PKH = "K", ("leaf", 1), Term("pkh")
     table = [
         ("provider_lookup_ecdsa_sig", [K], ("lookup_ecdsa_sig", (repr(K),)), ("sig", 72), True, False),
-        ("provider_lookup_tap_key_spend_sig", [K], ("lookup_tap_key_spend_sig", (repr(K),)), ("sig", 65), some(65), NONE),
-        ("provider_lookup_tap_key_spend_sig", [K], ("lookup_tap_key_spend_sig", (repr(K),)), ("sig", 64), some(64), NONE),
-        ("provider_lookup_tap_leaf_script_sig", [K, LEAF], ("lookup_tap_leaf_script_sig", (repr(K), repr(LEAF))), ("sig", 64), some(64), NONE),
+        ("provider_lookup_tap_key_spend_sig", [K], ("lookup_tap_key_spend_sig", (repr(K),)), tsig(65), some(65), NONE),
+        ("provider_lookup_tap_key_spend_sig", [K], ("lookup_tap_key_spend_sig", (repr(K),)), tsig(64), some(64), NONE),
+        ("provider_lookup_tap_leaf_script_sig", [K, LEAF], ("lookup_tap_leaf_script_sig", (repr(K), repr(LEAF))), tsig(64), some(64), NONE),
+        ("provider_lookup_tap_leaf_script_sig", [K, LEAF], ("lookup_tap_leaf_script_sig", (repr(K), repr(LEAF))), tsig(65), some(65), NONE),
         ("provider_lookup_raw_pkh_pk", [PKH], ("lookup_raw_pkh_pk", (repr(PKH),)), Term("pk"), some(Term("pk")), NONE),
         ("provider_lookup_raw_pkh_x_only_pk", [PKH], ("lookup_raw_pkh_x_only_pk", (repr(PKH),)), Term("xpk"), some(Term("xpk")), NONE),
         ("provider_lookup_raw_pkh_ecdsa_sig", [PKH], ("lookup_raw_pkh_ecdsa_sig", (repr(PKH),)), (Term("pk"), ("sig", 72)), some(Term("pk")), NONE),
         ("provider_lookup_raw_pkh_tap_leaf_script_sig", [(PKH, LEAF)], ("lookup_raw_pkh_tap_leaf_script_sig", (repr((PKH, LEAF)),)),
-         (Term("xpk"), ("sig", 65)), some((Term("xpk"), 65)), NONE),
+         (Term("xpk"), tsig(65)), some((Term("xpk"), 65)), NONE),
+        ("provider_lookup_raw_pkh_tap_leaf_script_sig", [(PKH, LEAF)], ("lookup_raw_pkh_tap_leaf_script_sig", (repr((PKH, LEAF)),)),
+         (Term("xpk"), tsig(64)), some((Term("xpk"), 64)), NONE),
         ("provider_lookup_sha256", ["H"], ("lookup_sha256", (repr("H"),)), PyVec([1] * 32), True, False),
         ("provider_lookup_hash256", ["H"], ("lookup_hash256", (repr("H"),)), PyVec([1] * 32), True, False),
         ("provider_lookup_ripemd160", ["H"], ("lookup_ripemd160", (repr("H"),)), PyVec([1] * 32), True, False),
